@@ -349,7 +349,7 @@ class NumericalExpressionTree:
             if isinstance(node.value, float) and node.value.is_integer():
                 return str(int(node.value))
 
-            return node.value
+            return str(node.value)
 
         left_operand = self._convert_to_mathematical(node.children[0])
         right_operand = self._convert_to_mathematical(node.children[1])
